@@ -8,7 +8,7 @@ CFFFF   == <<239, 191, 191>>           \* U+FFFF
 C10FFFF == <<244, 143, 191, 191>>      \* U+10FFFF
 CD7FF   == <<237, 159, 191>>           \* U+D7FF (lead byte ED)
 Alpha   == {CA, CNT, C0800, CCRAB, <<0>>} \cup (IF Wide THEN {C07FF, CFFFF, C10FFFF, CD7FF, CSQRT} ELSE {})
-MCStrs  == StrsUpTo(Alpha, MaxChars)
+MCStrs  == StrsUpTo(Alpha, MaxChars) \cup (IF Wide THEN {c \o CA : c \in LeadChars} \cup {CA \o c : c \in LeadChars} ELSE {})
 
 \* strings longer than 256 bytes made of few (wide) characters: the offsets of the last characters no longer fit a u8
 LongStrs == {RepSeq(CCRAB, 64) \o CNT \o CA, RepSeq(C0800, 85) \o CA \o CNT}
